@@ -10,13 +10,18 @@ state (positive theorem for symmetric H / real states, `_refuted` witness
 sigma_y, psi=(1,i)); effective Hamiltonian = restriction, isometric
 environments preserve norms, local update monotone; variational bound from a
 sum-of-squares certificate; bond caps of 1-/2-site sweeps and of solve();
-schedule iterator; which number `energy` exposes.
+schedule iterator; which number `energy` exposes; the schedule machine over the whole
+life of a DMRG object (coq/C10/Schedule.v: iterator machine = documented closed form
+for every history of solve() calls, exhausted schedules hold their FINAL entry,
+bonds after any history of 2-site sweeps obey the cap of the last sweep).
 
 Tie (H, exact, evaluated in Coq with vm_compute): tensor_network_align on every
 stack of <= 4 layers; DMRG's energy network and effective Hamiltonians on
 Gaussian-integer MPOs / integer kets vs the network semantics and vs the
 library's own psi.H @ H.apply(psi) and dense algebra; schedule / canonize /
-bond-dimension / energies bookkeeping of real runs vs the sweep machine.
+bond-dimension / energies bookkeeping of real runs vs the sweep machine; the
+max_bond / cutoff / direction / canonize arguments every sweep receives over
+histories of solve() calls (scripted and real) vs Model.dmrg_history.
 
 Oracle (tolerance, a test): real DMRG1 / DMRG2 runs.
 """
@@ -37,7 +42,12 @@ RULE = (
     "library convention, dense algebra, effective Hamiltonian at every site (1- and 2-site). oracle: DMRG1/DMRG2 runs, "
     "L 3-7, d 2-3, real-symmetric and complex-Hermitian MPOs (own builder and SpinHam1D), bond/cutoff schedules, sweep "
     "sequences, random / product / complex initial states. Non-trivial: complex H with complex state, >= 2 sweeps, "
-    "truncating schedule, or effective Hamiltonian with both environments present."
+    "truncating schedule, or effective Hamiltonian with both environments present. histories: bond_dims / cutoffs as scalar, "
+    "list, tuple, range (both step signs), generator, ndarray, class default; sequences single / constant / increasing / "
+    "decreasing / peak / valley / plateau-then-drop / random of length 1-4; 1-3 solve() calls with / without bond_dims= and "
+    "cutoffs= arguments, fewer / as many / more sweeps than entries, with / without early convergence; DMRG (bsz 1, 2), DMRG1, "
+    "DMRG2, DMRGX; scripted (sweep replaced by a recorder returning integer energies) and real runs on L=6-8 chains whose "
+    "ground state needs more than the final cap. Non-trivial there: a sweep beyond the end of its schedule or >= 2 calls."
 )
 
 HEADER = tm.HEADER + (
@@ -282,7 +292,7 @@ def flush(ctx, col, name="cases"):
     jobs = 3 if ctx.quick else 6
     # round-robin so that every file gets the same mix of cheap and expensive cases
     order = sorted(col.cases, key=lambda c: (c[0] % jobs, c[0]))
-    shard = min(250, max(1, -(-len(order) // jobs)))
+    shard = min(400, max(1, -(-len(order) // jobs)))
     failed, errors = ctx.coq_cases(name, HEADER, order, shard=shard, jobs=jobs)
     for path, err in errors:
         ctx.broken_obligation("correspondence:" + path.split("/")[-1], err)
@@ -1367,7 +1377,7 @@ def history_case(ctx, col, spec, n):
     if parts:
         col.add({**desc, "check": "sweep loop", "nsweeps": nsweeps}, " && ".join(parts), history_fail)
     # the conclusion of C10_history2_bond_cap on the observed final bonds: every bond <= the model's cap of the last sweep
-    if real and bsz == 2 and total:
+    if real and bsz == 2 and sum(nsweeps):
         col.add({**desc, "check": "history bond cap", "bonds": bonds_of(dm._k)},
                 f"forallb (fun b => Nat.leb b (cap_of_last ({model}))) {natlist(bonds_of(dm._k))}", history_fail)
 
@@ -1565,8 +1575,8 @@ def run(ctx):
     ctx.trusted_base += [
         "network semantics coq/Base/TN.v instantiated for Z[i] (coq/Base/TNExec.v `dense`), executed by vm_compute on the arrays "
         "dumped from the implementation's own objects (TN_energy, _k, _b, ham, effective Hamiltonian)",
-        "hand models coq/C10/Model.v (tensor_network_align, schedule iterator, canonize flag, bond-dimension machine, energies "
-        "bookkeeping) tied by exact correspondence; the harness (array dumps, label renaming, monkey-patched sweep / "
+        "hand models coq/C10/Model.v (tensor_network_align, schedule iterator and its life over solve() calls, sweep loop, canonize "
+        "flag, bond-dimension machine, energies bookkeeping) tied by exact correspondence; the harness (array dumps, label renaming, monkey-patched sweep / "
         "_update_local_state observers)",
         "oracle contracts, validated numerically only (tests, not theorems): the local eigensolver returns a normalised vector whose "
         "local energy is not above the current one; QR / SVD return isometries; exact diagonalisation (numpy eigh) defines E0",
@@ -1575,8 +1585,10 @@ def run(ctx):
     ]
     ctx.assumptions += [
         "convergence of DMRG to the exact ground state is not a theorem; it is tested on small systems when the cap admits the exact state",
-        "1-site DMRG: `bond_dims` is the dimension bonds are expanded to; the cap claimed is max(initial bonds, schedule); schedules are "
-        "taken non-decreasing",
+        "1-site DMRG: `bond_dims` is the dimension bonds are expanded to; the cap claimed is max(initial bonds, every dimension "
+        "requested so far); the single-call oracle stream takes non-decreasing schedules, the history stream any",
+        "history stream: the number of sweeps a real solve() call performs is observed (convergence is numerical); the scripted "
+        "runs tie the sweep loop exactly (integer energies, DMRG._check_convergence; DMRGX converges on the variance: not modelled)",
         "monotonicity tolerance: 1e-7 * ||H|| inside a sweep, 1e-4 * ||H|| across the bond expansion (noise 1e-6) of 1-site sweeps",
     ]
     ctx.check_props(["Base/Sums.vo", "Base/TN.vo", "Base/TNExec.vo", "C10/Model.vo", "C10/Energy.vo", "C10/Network.vo",
